@@ -32,6 +32,7 @@ fn main() {
         "C16" => verif_harness::props::c16::run(&cfg),
         "C02" => verif_harness::props::c02::run(&cfg),
         "C03" => verif_harness::props::c03::run(&cfg),
+        "C04" => verif_harness::props::c04::run(&cfg),
         "C05" => verif_harness::props::c05::run(&cfg),
         "STRUCT" => verif_harness::props::structs::run_model(&cfg),
         _ => {
